@@ -90,7 +90,13 @@ NearKeyMaps == { VMap(CanonMap(<< <<VInt(FALSE, <<1,0,0,0,0,0,32>>), A(<<97>>)>>
                  VMap(CanonMap(<< <<VInt(TRUE, <<1,0,16,99,45,94,199,107,5>>), A(<<97>>)>>, <<VFloat(<<196,21,175,29,120,181,140,64>>), A(<<98>>)>> >>)),
                  VMap(CanonMap(<< <<VInt(FALSE, <<1,0,0,128>>), A(<<97>>)>>, <<VFloat(<<65,224,0,0,0,0,0,0>>), A(<<98>>)>> >>)),
                  VMap(CanonMap(<< <<VInt(TRUE, <<1,0,0,128>>), A(<<97>>)>>, <<VFloat(<<193,224,0,0,0,0,0,0>>), A(<<98>>)>> >>)) }
-D1 == Leaves
+\* atoms that look alike: the same length, different in one byte only, at every position (short and mid-sized names) or at the edges and in the middle
+\* (long ones) -- side by side in one term, and, through the order in which vectors are decoded, one after the other on one thread
+AtomWith(L, p, c) == A([k \in 1..L |-> IF k = p THEN c ELSE 97 + (k % 7)])
+LookAlikePos(L) == IF L <= 24 THEN 1..L ELSE IF L <= 40 THEN {1, 8, 9, 10, L \div 2, L - 9, L - 8, L - 7, L} ELSE {9, L \div 2, L - 8}
+AtomLookAlikes == UNION { UNION { { VTuple(<<AtomWith(L, p, 120), AtomWith(L, p, 121)>>), VMap(CanonMap(<< <<AtomWith(L, p, 120), SmallInt(1)>>, <<AtomWith(L, p, 121), SmallInt(2)>> >>)) }
+                          : p \in LookAlikePos(L) } : L \in {3, 16, 17, 24, 40, 255} }
+D1 == Leaves \cup AtomLookAlikes
       \cup { VTuple(es) : es \in Seqs(Small, 2) } \cup { VTuple([i \in 1..n |-> SmallInt(i % 256)]) : n \in {255, 256} }
       \cup { VList(es, t) : es \in (Seqs(Small, 2) \ {<<>>}), t \in {VNil, SmallInt(1), A(<<111,107>>), VBin(<<1>>)} }
       \cup { VList([i \in 1..n |-> SmallInt(i % 256)], VNil) : n \in (IF Heavy THEN {300, 65535, 65536} ELSE {300}) }
